@@ -88,4 +88,11 @@ ENTRIES.update({
             "text": "Each message is re-encoded by the independent encoder with extra length octets at every node (incl. the fixed 4-octet lengths of Active Directory), TRUE as 01 / 80 / 7F, explicitly encoded DEFAULT values, and unknown trailing elements after the defined components; "
                     "the library must decode all of them to the same message."},
 })
+ENTRIES["C11"] = {"category": "other",
+                  "technique": "contract-level joint inductive invariant over (client, server, two FIFO queues): each action's session part is derived from the proved L3 method contracts, preservation discharged per action and conjunct with z3; bounded joint exploration with partial deliveries as stand-in for the terminations",
+                  "note": "Proved for the alive fragment (no unbind / notice / protocol error): 203 obligations (preconditions from J, preservation of the 13 conjuncts under 13 actions, no ProtocolError on delivery, initial state, quiescence agreement, vacuity canaries). "
+                          "Environment (queues, ghost bookkeeping) and the application assumptions of the statement are written in pyvc/joint.py; byte-level chunked delivery is reduced to message delivery by C02 and value equality by C01 (lemmas). "
+                          "Terminations are covered only by the bounded exploration (all joint histories up to depth 7 / 9 with 1-, 3- and all-byte deliveries).",
+                  "text": "If every public session operation satisfies its proved contract, then from two fresh sessions every reachable joint state satisfies J; J gives: delivering the head of either pipe never raises ProtocolError, "
+                          "and when both pipes are empty the sides agree on BINDING / not BINDING and on the set of operations in progress (and which are searches). The level is 'other' because the termination part of the statement is bounded, not proved."}
 NOT_APPLICABLE = {}
